@@ -34,7 +34,7 @@ void h_run(Case &c) {
       if (!subset(S, rootcs)) CHECK(c, nb == -1, "largest", "S={%s} is not included in the root but largest_objs returned %d", Ss.c_str(), nb);
       else { CHECK(c, nb >= 0 && (unsigned)nb <= cap && objs[cap] == (hwloc_obj_t)0x1, "largest", "largest_objs returned %d for max %u", nb, cap); USet u;
         for (int i = 0; i < nb; i++) { const USet &oc = CS[objs[i]]; CHECK(c, disjoint(u, oc), "largest", "largest objects are not pairwise disjoint (S={%s})", Ss.c_str()); u.insert(oc.begin(), oc.end()); CHECK(c, subset(oc, S), "largest", "%s is not inside S={%s}", oid(objs[i]).c_str(), Ss.c_str()); if (objs[i]->parent) CHECK(c, !subset(CS[objs[i]->parent], S), "largest", "%s is not maximal: its parent is inside S={%s} too", oid(objs[i]).c_str(), Ss.c_str()); }
-        if ((unsigned)nb < cap || cap == 200) CHECK(c, u == S, "largest", "union of the largest objects {%s} != S={%s}", ustr(u).c_str(), Ss.c_str()); else CHECK(c, subset(u, S), "largest", "prefix not inside S"); }
+        if ((unsigned)nb < cap) CHECK(c, u == S, "largest", "union of the largest objects {%s} != S={%s}", ustr(u).c_str(), Ss.c_str()); else CHECK(c, subset(u, S), "largest", "prefix not inside S"); }
       if (nb > 1) nontrivial = true; }
     // inside / covering iterators at a generated depth (normal or NUMA level)
     { int dp = d.chance(1, 6) ? HWLOC_TYPE_DEPTH_NUMANODE : d.range(0, topodepth - 1); std::vector<hwloc_obj_t> ins, covs;
